@@ -308,6 +308,16 @@ def source_frame(case):
     raise ValueError(eng)
 
 
+def make_settings(case):
+    """the `vel_settings` / tis_set dict handed to modify_velocities: key-less or with an explicit
+    zero_momentum, plus the other (nested) entries a real tis_set carries"""
+    vs = {"maxlength": 2000, "allowmaxlength": False, "n_jumps": 3, "interface_cap": [0.5, {"k": 1}]} \
+        if case.get("rich_settings", True) else {}
+    if case["zm"] is not None:
+        vs["zero_momentum"] = case["zm"]
+    return vs
+
+
 def snap_system(s):
     out = {}
     for k, v in sorted(vars(s).items()):
@@ -319,7 +329,7 @@ def snap_system(s):
 
 
 # ------------------------------------------------------------------ one case on the real code
-def run_case(mods, work, case, via_prepare=False):
+def run_case(mods, work, case, via_prepare=False, shared_vs=None):
     """returns a dict with everything observed on the real implementation"""
     eng, n, T = case["engine"], case["n"], case["T"]
     e = build_engine(mods, work, case)
@@ -337,7 +347,8 @@ def run_case(mods, work, case, via_prepare=False):
     sysm.vel_rev = bool(case.get("vel_rev", False))
     sysm.order = [0.25]
     before = snap_system(sysm)
-    vs = {} if case["zm"] is None else {"zero_momentum": case["zm"]}
+    vs = make_settings(case) if shared_vs is None else shared_vs
+    vs_before = _copy.deepcopy(vs)
     gstate = np.random.get_state()
     obs = {"engine_mass": None, "err": None}
     target = sysm
@@ -361,7 +372,10 @@ def run_case(mods, work, case, via_prepare=False):
                     i = rg.integers(1, _p.length - 1)
                     return _p.phasepoints[i], i
                 path.get_shooting_point = gsp
-                shpt, sidx, dek = mods["tis"].prepare_shooting_point(path, _Pick(), e, {"tis_set": vs})
+                ens_set = {"tis_set": vs, "interfaces": [0.0, 0.25, 1.0], "ens_name": "c16"}
+                ens_before = _copy.deepcopy(ens_set)
+                shpt, sidx, dek = mods["tis"].prepare_shooting_point(path, _Pick(), e, ens_set)
+                obs["ens_set_same"] = ens_set == ens_before
                 kin_new = shpt.ekin
                 target = shpt
                 obs["copy_is_new_object"] = shpt is not sysm
@@ -377,6 +391,8 @@ def run_case(mods, work, case, via_prepare=False):
     g2 = np.random.get_state()
     obs["global_state_untouched"] = (gstate[0] == g2[0] and np.array_equal(gstate[1], g2[1]) and gstate[2:] == g2[2:])
     obs["dek"], obs["kin_new"] = float(dek), float(kin_new)
+    obs["settings_same"] = (vs == vs_before and list(vs.keys()) == list(vs_before.keys()))
+    obs["settings_before"], obs["settings_after"] = vs_before, _copy.deepcopy(vs)
     obs["log"] = gen.log
     obs["config"] = target.config
     obs["sys_ekin_after"] = target.ekin
@@ -593,6 +609,11 @@ def evaluate(ctx, case, obs, obs_prep, driver_answers):
             fail(f"C16:{eng}:source-file-altered", f"{tag}: the source trajectory file was modified")
         if not o["src_system_same"]:
             fail(f"C16:{eng}:source-system-altered", f"{tag}: the shooting point's System object was modified")
+        if not o.get("settings_same", True):
+            fail(f"C16:{eng}:settings-mutated", f"{tag}: the settings dict handed in was changed: "
+                 f"{o['settings_before']} → {o['settings_after']} (a later engine given the same dict inherits it)")
+        if not o.get("ens_set_same", True):
+            fail(f"C16:{eng}:settings-mutated", f"{tag}: prepare_shooting_point changed the ensemble settings it was handed")
         if tag == "modify_velocities" and not set(o["changed_attrs"]) <= {"config", "ekin"}:
             fail(f"C16:{eng}:other-attrs-changed", f"modify_velocities changed {o['changed_attrs']}")
         if tag == "prepare_shooting_point":
@@ -739,9 +760,9 @@ def ase_sigp(case):
     return np.sqrt(np.array(case["masses"], dtype=float) * (ase.units.kB * case["T"]))
 
 
-def do_case(ctx, mods, work, case, with_prepare):
+def do_case(ctx, mods, work, case, with_prepare, shared_vs=None):
     eng = case["engine"]
-    obs = run_case(mods, work, case)
+    obs = run_case(mods, work, case, shared_vs=shared_vs)
     obs_prep = run_case(mods, work, case, via_prepare=True) if with_prepare else None
     answers = None
     if ctx._driver_ok and not obs.get("err") and len(obs["log"]) == 1:
@@ -762,6 +783,12 @@ def do_case(ctx, mods, work, case, with_prepare):
             answers = {"asIs": parse_model(out[0])}
     failed = evaluate(ctx, case, obs, obs_prep, answers)
     return obs, obs_prep, failed
+
+
+def _assume(ctx, items):
+    for it in items:          # run(ctx) may be called again by the framework (escalation): no duplicates
+        if it not in ctx.assumptions:
+            ctx.assumptions.append(it)
 
 
 def _report(ctx, sig, what, replay):
@@ -800,7 +827,8 @@ def run_chain(ctx, mods, work, case):
     sysm = mods["System"]()
     sysm.set_pos((str(src), 0 if eng == "gromacs" else case["idx"]))
     sysm.ekin = case["sys_ekin"]
-    vs = {} if case["zm"] is None else {"zero_momentum": case["zm"]}
+    vs = make_settings(case)
+    vs_before = _copy.deepcopy(vs)
     zm_on = case["zm"] if case["zm"] is not None else (eng == "cp2k")
     tol = written_abs_tol(eng)
     prev = source_frame(case)
@@ -818,6 +846,9 @@ def run_chain(ctx, mods, work, case):
             fail(f"C16:{eng}:raises", f"{tag}: modify_velocities raised {err_kind(ex)}: {str(ex)[:160]}")
             return failed
         dek, kin_new = float(dek), float(kin_new)
+        if vs != vs_before:
+            fail(f"C16:{eng}:settings-mutated", f"{tag}: modify_velocities changed the settings dict it was handed: "
+                 f"{vs_before} → {vs}")
         g = parse_frame(eng, sysm.config[0], n)
         m = getattr(e, "masses", None) if eng == "gromacs" else getattr(e, "mass", None)
         masses = np.array(case["masses"] if m is None else m, dtype=float).reshape(-1, 1)
@@ -868,6 +899,46 @@ def chain_cases(ctx):
                 c["chain_z"] = [[[rng.gauss(0, 1) for _ in range(3)] for _ in range(n)] for _ in range(rng.randint(4, 6))]
                 out.append(c)
     return out
+
+
+def run_shared_settings(ctx, mods, work):
+    """sequences of engines handed ONE settings dict (as a driver / multi-engine set-up hands one tis_set to
+    several engines), key-less and with explicit keys.  Every engine's result must be what its OWN default gives
+    (full tie + predicates for that engine on the shared dict: model `zeroMomentumFlag`, variance, v = σ·z …) and
+    must equal, bit for bit, the same call on a fresh copy of the original dict."""
+    rng = ctx.rng
+    orders = [list(ENGINES[i:] + ENGINES[:i]) for i in range(len(ENGINES))]
+    for _ in range(1 if ctx.quick else 6):
+        o = list(ENGINES)
+        rng.shuffle(o)
+        orders.append(o)
+    for order in orders:
+        for zm in (None, False, True):
+            proto = {"engine": order[0], "zm": zm, "rich_settings": rng.random() < 0.5}
+            shared = make_settings(proto)
+            original = _copy.deepcopy(shared)
+            for pos, eng in enumerate(order):
+                n = rng.choice((2, 3, 4))
+                case = gen_case(rng, eng, n, rng.choice((300, 77.5)), zm, "shared-settings")
+                case["rich_settings"] = proto["rich_settings"]
+                case["history"] = order[:pos]
+                handed = _copy.deepcopy(shared)
+                obs, _p, failed = do_case(ctx, mods, work, case, False, shared_vs=shared)
+                fresh = run_case(mods, work, case, shared_vs=_copy.deepcopy(original))
+                ctx.count(2, branch="shared-settings")
+                if obs.get("err") or fresh.get("err"):
+                    continue
+                same = (np.array_equal(obs["genvel"]["vel"], fresh["genvel"]["vel"]) and obs["dek"] == fresh["dek"]
+                        and obs["kin_new"] == fresh["kin_new"])
+                if not same:
+                    _report(ctx, f"C16:{eng}:result-depends-on-call-history",
+                            f"{eng}.modify_velocities after {order[:pos]} on one shared settings dict (originally "
+                            f"{original}, now {handed}) writes velocities {obs['genvel']['vel'].tolist()} / kin_new "
+                            f"{obs['kin_new']!r}; on a fresh copy of the original settings the same engine, frame and "
+                            f"draw give {fresh['genvel']['vel'].tolist()} / {fresh['kin_new']!r}",
+                            {"case": {k: v for k, v in case.items() if not k.startswith("_")}, "order": order,
+                             "position": pos, "original_settings": original, "settings_when_called": handed,
+                             "check": "shared-settings"})
 
 
 def reproducibility(ctx, mods, work, case):
@@ -1282,11 +1353,11 @@ def run_c07_engine_streams(ctx):
                                     "job2_equals_fresh": not diffs, "A_untouched_in_job2": _gen_state(gen_a) == a_state,
                                     "path_len": job2["path_len"], "error": job2["prop_err"]})
         ctx.extra["c07_engine_streams"] = results[:40]
-        ctx.assumptions += [
+        _assume(ctx, [
             "C07 engine half: GROMACS's own gen_vel (gen_seed = -1, chosen by gmx) and seeds inside user-supplied MD "
             "templates (ld_seed, cp2k thermostat seeds) are outside the property by its own words; CP2K/GROMACS "
             "propagation is an external program without in-process draws",
-        ]
+        ])
     finally:
         os.chdir(cwd)
         shutil.rmtree(work, ignore_errors=True)
@@ -1341,6 +1412,8 @@ def run(ctx):
                             "kin_new": None if obs.get("err") else obs["kin_new"],
                             "request": None if obs.get("err") or not obs["log"] else
                             [obs["log"][0]["stream"], obs["log"][0]["method"]]})
+        # engines sharing one settings dict
+        run_shared_settings(ctx, mods, work)
         # chained regenerations (repeated kicks) on one engine object and one System
         for c in chain_cases(ctx):
             run_chain(ctx, mods, work, c)
@@ -1362,7 +1435,12 @@ def run(ctx):
         os.chdir(cwd)
         run_c07_engine_streams(ctx)
         ctx.exhaustive = False
-        ctx.assumptions += [
+        _assume(ctx, [
+            "input purity is tie-only: the model is functional (settings are an argument, `zeroMomentumFlag` = the "
+            "entry if present else the engine's own default: CP2K true, all others false — theorem "
+            "zero_momentum_flag_rule); that modify_velocities leaves the settings dict and the System's other fields "
+            "as handed in, and that results do not depend on which engines saw the dict before, is checked by the tie "
+            "(deep compare before/after; sequences of engines on one shared dict vs a fresh copy)",
             "sqrt and the Gaussian sampler are outside the model: numpy's normal(loc, scale, size) is taken to return "
             "loc + scale·z with z standard normal; the tie feeds fixed z and checks the request parameters",
             "source numbers have ≤ 4 decimals so the engines' text formats (15.9f / 9.4f / repr) hold them exactly; "
@@ -1373,7 +1451,7 @@ def run(ctx):
             "float, Python-int and numpy-int64 mass lists to the engines whose masses come from the user's toml "
             "(GROMACS infretis_genvel, TurtleMD); CP2K/LAMMPS/ASE masses are read from files as floats",
             "engines are constructed offline as in test/engines/test_velocity_functions.py (gmx = 'echo')",
-        ]
+        ])
     finally:
         os.chdir(cwd)
         shutil.rmtree(work, ignore_errors=True)
@@ -1400,6 +1478,17 @@ def replay(ctx, obj):
             ok = reproducibility(ctx, mods, work, case)
             print("same rgen state ⇒ same velocities:", ok)
             return 0 if ok else 1
+        if r.get("check") == "shared-settings":
+            shared = _copy.deepcopy(r["original_settings"])
+            for eng in r["order"][: r["position"]]:      # replay the call history on the shared dict
+                c0 = gen_case(ctx.rng, eng, 2, 300, case["zm"], "shared-settings")
+                run_case(mods, work, c0, shared_vs=shared)
+            obs = run_case(mods, work, case, shared_vs=shared)
+            fresh = run_case(mods, work, case, shared_vs=_copy.deepcopy(r["original_settings"]))
+            same = (not obs.get("err") and not fresh.get("err") and np.array_equal(obs["genvel"]["vel"], fresh["genvel"]["vel"])
+                    and obs["kin_new"] == fresh["kin_new"] and obs["dek"] == fresh["dek"])
+            print("result independent of the call history:", same)
+            return 0 if same else 1
         if "chain_z" in case:
             failed = run_chain(ctx, mods, work, case)
         else:
